@@ -20,6 +20,16 @@ LFE_RATES = [44100, 48000]
 LFE_QS = [-0.1, -0.05, 0.0, 0.3]
 LFE_HZ = [60, 130, 200, 260]
 
+# level-gap slice: one quiet channel (channel 1: two-tone at GAP_DB dBFS, base frequency GAP_HZ) next to loud channels, and the same quiet content
+# with silent neighbours.  Differential oracle: SNR(quiet | loud neighbours) >= SNR(quiet | silent neighbours) - GAP_D; absolute floor GAP_FLOOR.
+# Measured on /repo 8b10cf9 (0.3 s and 1 s, 2 and 3 channels, VBR and ABR): largest deficit 0.8 dB at 60/90 Hz and 6.0 dB at 13 kHz (the encoder
+# floats the ATH and selects tone curves by a stream-wide level by design, which costs the 13 kHz member up to 6 dB: tolerated, +3 dB margin).
+GAP_RATE, GAP_CHS, GAP_QS, GAP_HZ, GAP_DB = 44100, [3, 2], [0.3, 0.5, 0.7], [60, 90, 13000], [-80, -60]
+GAP_D = {'low': 3.0, 'high': 9.0}
+# measured minima of the quiet channel's SNR next to loud channels, dB, per quality: low/-80 18.9 20.4 22.3, low/-60 25.8 29.6 31.9,
+# high/-80 11.3 14.3 16.0, high/-60 16.3 18.5 21.5; floor = measured - 6 dB
+GAP_FLOOR = {('low', -80): [12.9, 14.4, 16.3], ('low', -60): [19.8, 23.6, 25.9], ('high', -80): [5.3, 8.3, 10.0], ('high', -60): [10.3, 12.5, 15.5]}
+
 UNIQUE = 1.2   # peak / second-largest-local-maximum of the input autocorrelation needed for a channel to be used for alignment
 APERIODIC = ('b2', 'b5', 'sw', 'nz', 'ck')       # classes with a unique correlation peak by construction -> alignment judged
 BANDLIMITED = ('t2', 't2d', 't5', 'b2', 'b5', 'sw', 'nz')  # classes with an SNR floor (click trains are full-band, t2x is over-range)
@@ -164,7 +174,7 @@ def judge(m, r):
         # resolution: lags inside the flat top (>= 98% of the peak) of the input's own autocorrelation cannot be told from 0
         if any(abs(lag[c]) > iw[c] for c in jc):
             v.append(('misaligned:%s:%s' % (cls, cfg), 'cross-correlation peak at lags %s (must be 0, tolerance %s = flat top of the input autocorrelation, on every channel whose input autocorrelation peak is unique: channels %s), peak/second ratios %s: %s' % (lag, iw, jc, rat, m['case'])))
-    if ch >= 2:
+    if ch >= 2 and not (cls == 'gap' and m['sig'].endswith(':0')):   # (silent input channels have no correlation to speak of)
         info['id_judged'] = True
         if ids != list(range(ch)):
             v.append(('channel_permuted:%s:%s' % (cls, cfg), 'best-correlated input channel per output channel %s (must be identity), margin %s: %s' % (ids, d['idm'], m['case'])))
@@ -174,6 +184,21 @@ def judge(m, r):
         if min(snr) < f:
             v.append(('snr_below_floor:%s:%s' % (cls, cfg), 'SNR %s dB (min %.2f) below floor(%s,%s,q=%g)=%.1f dB: %s' % (d['snr'], min(snr), cls, m['mode'], m['q'], f, m['case'])))
     return 'ok', v, info
+
+
+def judge_gap_pair(m, info_loud, info_alone):
+    """m: the loud member; info_*: judge() infos.  -> [(key, desc)]"""
+    cfg = 'r%d:c%d:%s%g' % (m['rate'], m['ch'], m['mode'], m['q'])
+    hz, db = int(m['sig'].split(':')[1]), int(m['sig'].split(':')[2])
+    band = 'low' if hz < 1000 else 'high'
+    sl, sa = info_loud['snrs'][1], info_alone['snrs'][1]
+    v = []
+    if sl < sa - GAP_D[band]:
+        v.append(('levelgap_snr_depends_on_neighbours:gap:%s' % cfg, 'quiet channel 1 (%d Hz two-tone at %d dBFS): SNR %.2f dB next to loud channels, %.2f dB with silent neighbours (allowed deficit %.1f dB): %s' % (hz, db, sl, sa, GAP_D[band], m['case'])))
+    f = GAP_FLOOR[(band, db)][GAP_QS.index(m['q'])]
+    if sl < f:
+        v.append(('levelgap_snr_below_floor:gap:%s' % cfg, 'quiet channel 1 (%d Hz two-tone at %d dBFS) next to loud channels: SNR %.2f dB below floor %.1f dB: %s' % (hz, db, sl, f, m['case'])))
+    return v, sa - sl
 
 
 def exe_():
@@ -242,6 +267,19 @@ def run(tier):
                             m['case'] = mkcase(rate, 6, mode, q, n, m['sig'])
                             batch.append(m)
     members.append(('lfe', batch))
+    # level-gap slice (second): pairs (loud neighbours, silent neighbours) of the same quiet content
+    batch = []
+    for n in ([int(round(0.3 * GAP_RATE))] if tier == 'quick' else [int(round(0.3 * GAP_RATE)), GAP_RATE + 37]):
+        for ch in GAP_CHS:
+            for mode in MODES:
+                for q in GAP_QS:
+                    for hz in GAP_HZ:
+                        for db in GAP_DB:
+                            for loud in (1, 0):
+                                m = {'cls': 'gap', 'rate': GAP_RATE, 'ch': ch, 'mode': mode, 'q': q, 'n': n, 'sig': 'g:%d:%d:%d' % (hz, db, loud)}
+                                m['case'] = mkcase(GAP_RATE, ch, mode, q, n, m['sig'])
+                                batch.append(m)
+    members.append(('gap', batch))
     for li in range(len(lengths(tier, 8000))):
         fam = family(tier, li)
         for cls in ('ck', 'sw', 'nz', 't2d', 't2x', 't2', 'b2', 'b5', 't5'):
@@ -264,7 +302,7 @@ def run(tier):
     stats = {'members': total, 'executed': 0, 'lag_judged': 0, 'lag_channels_judged': 0, 'lag_channels_judged_with_zero_tolerance': 0, 'lag_channels_ambiguous_not_judged': 0, 'lag_judged_by_class': {}, 'min_ratio': 1e9, 'id_judged': 0, 'id_ge3ch': 0, 'id_coupled_stereo': 0,
              'id_coupled_51': 0, 'snr_judged': 0, 'long_to_short_members': 0, 'short_block_members': 0, 'max_input_crosscorr': 0.0, 'min_id_margin': 1e9,
              'max_peak_ratio_uncoupled': 0.0, 'max_peak_ratio_coupled': 0.0,
-             'lfe_peak_judged': 0, 'max_lfe_peak_ratio': 0.0, 'lfe_content_members_negative_q_blocks_512_4096': 0}
+             'gap_pairs_judged': 0, 'gap_max_deficit_dB': {'low': -99.0, 'high': -99.0}, 'lfe_peak_judged': 0, 'max_lfe_peak_ratio': 0.0, 'lfe_content_members_negative_q_blocks_512_4096': 0}
     meas = {}     # (cls, mode, qi) -> min snr ; also per rate
     series = {}   # (cls, sig, ch, rate, mode, n) -> {qi: snr}
     done_batches, cut = [], []
@@ -286,6 +324,7 @@ def run(tier):
         res = vlib.run_cases(exe, [m['case'] for m in batch], tag='c06')
         print('  C06 batch %s: %d members, t=%.0fs' % (bname, len(batch), time.time() - chk.t0), file=sys.stderr, flush=True)
         done_batches.append(bname)
+        gapinfo = {}
         for m, r in zip(batch, res):
             chk.cov['evaluations'] += 1
             stats['executed'] += 1
@@ -299,7 +338,9 @@ def run(tier):
                 failing.append((m, v, (r or '')[:600]))
             if st != 'ok':
                 continue
-            if not v:
+            if m['cls'] == 'gap':
+                gapinfo[m['case']] = (m, info, bool(v), (r or '')[:600])
+            elif not v:
                 passed.add((m['cls'], m['ch'], m['rate'], m['q'], m['mode']))
             pk = 'max_peak_ratio_coupled' if info['cpl'] >= 1 else 'max_peak_ratio_uncoupled'
             stats[pk] = max(stats[pk], round(info['pkratio'], 4))
@@ -338,6 +379,22 @@ def run(tier):
                 series.setdefault((m['cls'], m['sig'], m['ch'], m['rate'], m['mode'], m['n']), {})[qi] = info['snr']
             if len(samples) < 12 and (chk.cov['evaluations'] % max(1, total // 12) == 1):
                 samples.append({'case': m['case'], 'class': m['cls'], 'result': (r or '')[:260]})
+        # level-gap pairs: the quiet channel next to loud channels against the same content with silent neighbours
+        for case, (m, info, bad, r) in gapinfo.items():
+            if not m['sig'].endswith(':1'):
+                continue
+            alone = gapinfo.get(mkcase(m['rate'], m['ch'], m['mode'], m['q'], m['n'], m['sig'][:-1] + '0'))
+            if alone is None:
+                continue
+            pv, deficit = judge_gap_pair(m, info, alone[1])
+            stats['gap_pairs_judged'] += 1
+            band = 'low' if int(m['sig'].split(':')[1]) < 1000 else 'high'
+            stats['gap_max_deficit_dB'][band] = round(max(stats['gap_max_deficit_dB'][band], deficit), 2)
+            if pv:
+                nviol += len(pv)
+                failing.append((dict(m, pair_alone_case=alone[0]['case']), pv, r + ' || alone: ' + alone[3]))
+            elif not bad and not alone[2]:
+                passed.add((m['cls'], m['ch'], m['rate'], m['q'], m['mode']))
     # ---- attribute violations to the known encoder defect by differential re-execution, then emit them
     attributed, cured_members = 0, []
     rerun = {}
@@ -353,7 +410,7 @@ def run(tier):
     for m, v, r in failing:
         still = rerun.get(m['case'], None)
         for key, desc in v:
-            if still is not None and key not in still:
+            if still is not None and key not in still and not key.startswith('levelgap'):
                 attributed += 1
                 if len(cured_members) < 40:
                     cured_members.append('%s  [%s]' % (m['case'], key))
@@ -420,6 +477,8 @@ def run(tier):
         'Hann-windowed chord bursts; linear sweeps: all ordered pairs of band edges; band-limited LCG noise (sums of 32-128 random-phase sinusoids below 0.3 Nyquist); aperiodic LCG click trains (1- and 5-sample clicks)} '
         f'with per-channel distinct content x channels {CHS} x rates {RATES} x quality {QS} x {{VBR, ABR at the nominal bitrate of that quality}} x lengths '
         f'({"0.3 s" if tier == "quick" else "0.3 s with the dense grids; 0.17 s (odd) and 0.45 s+37 with the quick grids"}); tones/sweeps below min(0.4 Nyquist, encoder lowpass), LFE channel of the 5.1 template below 200 Hz; plus an LFE-content slice: 6 channels at 44100/48000 Hz x quality (-0.1,-0.05,0,0.3) x (VBR, ABR) x LFE tone (0.5) at (60,130,200,260) Hz x (abrupt, faded), other channels two-tone chords. '
+        'Level-gap slice: 2 and 3 channels at 44100 Hz x quality (0.3,0.5,0.7) x (VBR, ABR) x quiet two-tone in channel 1 at (60,90,13000) Hz and (-80,-60) dBFS x (loud, silent) neighbours; '
+        'the quiet channel SNR next to loud channels must be within 3 dB (9 dB at 13 kHz) of its SNR with silent neighbours and above a measured floor. '
         'Judged on every member: all samples finite; output peak <= 2 x input peak + 0.05 (3 x when the mode uses lossy channel coupling), and on the 5.1 template additionally LFE output peak <= 2 x LFE input peak + 0.05; for >=2 channels the best lag-0-correlated input channel of every output channel is itself; '
         'SNR >= floor(class, mode, q) for the in-range band-limited classes (regression table, non-decreasing in q). ALIGNMENT (arg max over ALL lags -4096..4096 of the input/output cross-correlation is 0) is judged only on members with '
         'aperiodic structure (click trains, sweeps, noise, Hann-windowed bursts) and there only on channels whose INPUT autocorrelation has a unique peak (peak / second local maximum >= %g, a property of the signal alone); '
@@ -445,6 +504,7 @@ def run(tier):
         chk.guard(stats['long_to_short_members'] >= 100, '>=100 members contained a long->short block transition')
         chk.guard(len(passed) >= 100 or nviol > 0, 'at least 100 distinct configurations passed')
     chk.guard('lfe' in done_batches, 'the LFE-content slice was completed')
+    chk.guard('gap' not in done_batches or stats['gap_pairs_judged'] >= 72, '>=72 level-gap pairs (quiet channel next to loud / silent neighbours) were judged')
     chk.guard(stats['max_input_crosscorr'] < 0.5, 'input channels carry distinct content (max normalised cross-correlation between input channels < 0.5)')
     chk.guard(stats['lfe_content_members_negative_q_blocks_512_4096'] >= 32, '>=32 LFE-content members ran at negative quality with block sizes 512/4096 (LFE residue beyond the LFE floor range) and had their LFE peak judged')
     chk.guard(all(k[0] == 96000 and k[1] == 'a' for k in skipped), 'only ABR at 96000 Hz was refused by the encoder set-up')
@@ -458,6 +518,13 @@ def replay(path):
     out = vlib.run_cases(exe, [r['replay']['case']], jobs=1)
     st, v, info = judge(m, out[0])
     print(out[0])
+    if m.get('pair_alone_case') and st == 'ok':
+        out2 = vlib.run_cases(exe, [m['pair_alone_case']], jobs=1)
+        ma = dict(m, sig=m['sig'][:-1] + '0', case=m['pair_alone_case'])
+        st2, v2, info2 = judge(ma, out2[0])
+        print(out2[0])
+        if st2 == 'ok':
+            v = v + v2 + judge_gap_pair(m, info, info2)[0]
     for key, desc in v:
         print('STILL FAILS', key, desc)
     return 1 if (v or st == 'bad') else 0
